@@ -1,5 +1,5 @@
 (** Proofs about the uuencode model (Model/UU.v). *)
-From CRS Require Import Lib.Bytes Lib.Chunks Model.UU Proofs.UUBits.
+From CRS Require Import Lib.Bytes Lib.Chunks Lib.Sort Lib.Split Model.UU Proofs.UUBits.
 Open Scope N_scope.
 
 (** * One group *)
@@ -193,16 +193,6 @@ Proof.
 Qed.
 
 (** * Splitting encoder output into lines *)
-Lemma split_on_app_sep sep l r : ~ In sep l ->
-  split_on sep (l ++ sep :: r) = l :: split_on sep r.
-Proof.
-  induction l as [|x l IH]; intros Hnin.
-  - cbn [app split_on]. rewrite N.eqb_refl. reflexivity.
-  - cbn [app split_on].
-    assert (Hx : (x =? sep) = false) by (apply N.eqb_neq; intro; subst; apply Hnin; left; reflexivity).
-    rewrite Hx, IH; [reflexivity|]. intro Hin. apply Hnin. right. exact Hin.
-Qed.
-
 Lemma line_body_no_nl l : (0 < length l <= 45)%nat -> ~ In 10 (line_body l).
 Proof.
   intros H Hin. pose proof (line_body_chars l H) as Hc.
